@@ -319,6 +319,34 @@ pub(crate) fn shape_6<const F: u32>() {
     sc.finish();
 }
 
+/// S8 (first half of S2): empty directory, one big file: overwrite, delete of an absent key, put,
+/// delete of a present key.
+pub(crate) fn shape_8<const F: u32>() {
+    let m: Model = [None, None];
+    let mut sc = Sc::<F>::open(m, u64::MAX, false, T_ALL);
+    sc.put(0);
+    sc.put(0);
+    sc.del(1);
+    sc.put(1);
+    sc.del(0);
+    sc.finish();
+}
+
+/// S9 (second half of S2): a live value and garbage in the active file; merge of the active file
+/// (everything selected), write after the merge, reopen through the hint file.
+pub(crate) fn shape_9<const F: u32>() {
+    let m: Model = [None, None];
+    let mut sc = Sc::<F>::open(m, u64::MAX, false, T_ALL);
+    sc.put(0);
+    sc.put(1);
+    sc.del(0);
+    sc.merge();
+    kani::cover!(mfs::__fs().inodes[hslot(1)].len > 0, "the merge wrote a hint entry");
+    sc.put(0);
+    sc.reopen(u64::MAX, T_ALL);
+    sc.finish();
+}
+
 /// S7: the smallest rollover shape: empty directory, every write rolls over; put a, put b, and each
 /// is read back at once in the same process (the entry that triggers a rollover must stay readable).
 pub(crate) fn shape_7<const F: u32>() {
